@@ -24,8 +24,10 @@ FRONT = os.path.join(C.SPEC, "front")
 MC = os.path.join(FRONT, "MC_Deps.tla")
 MCE = os.path.join(FRONT, "MC_DepEscape.tla")
 
-MODEL_QUICK = ["MC_Deps_shape3.cfg", "MC_Deps_shape4q.cfg", "MC_Deps_search4.cfg"]
-MODEL_THOROUGH = ["MC_Deps_shape3.cfg", "MC_Deps_shape4.cfg", "MC_Deps_search4.cfg", "MC_Deps_search3.cfg"]
+# The bounded universes shape3 / shape4q / search4 are model-checked by the Gen_ configs themselves (same
+# invariants + the behaviour printer); the larger ones only in the thorough tier.
+MODEL_QUICK = []
+MODEL_THOROUGH = ["MC_Deps_shape4.cfg", "MC_Deps_search3.cfg"]
 SENS_DEPS = ["MC_Deps_sens_allDirectives.cfg", "MC_Deps_sens_mainOnly.cfg", "MC_Deps_sens_noInputs.cfg",
              "MC_Deps_sens_oneLineEach.cfg", "MC_Deps_arginclude_fails.cfg"]
 SENS_ESC = ["MC_DepEscape_sens_noBackslash.cfg", "MC_DepEscape_sens_spaceFirst.cfg"]
@@ -80,8 +82,18 @@ def gen(cfg, simulate=None):
     r = C.tlc(MC, cfg=cfg, workers=8, timeout=1500, name="c17-" + cfg, simulate=simulate,
               depth=400 if simulate else None, extra=extra)
     dags = C.tlc_prints(r["out"], "DAG")
-    if not dags or (not simulate and not C.tlc_ok(r)):
-        raise C.ToolError("generator %s failed: %s" % (cfg, r["out"][-1200:]))
+    if "is violated" in r["out"] or not dags or (not simulate and not C.tlc_ok(r)):
+        raise C.ToolError("generator/model %s failed: %s" % (cfg, r["out"][-1200:]))
+    if simulate:
+        m = re.search(r"The number of states generated: (\d+)", r["out"])
+        r["generated"] = r["distinct"] = int(m.group(1)) if m else 0
+        seen, uniq = set(), []
+        for d in dags:
+            k = json.dumps(d, sort_keys=True)
+            if k not in seen:
+                seen.add(k)
+                uniq.append(d)
+        dags = uniq
     return dags, r
 
 
@@ -405,6 +417,8 @@ def run_deps_driver(jobs, name, chunks=6, shim=None):
                 if nm.startswith("VERIF_MARK_"):
                     curj = nm[len("VERIF_MARK_"):]
                     consulted[curj] = []
+                elif nm == "VERIF_ENDMARK":
+                    curj = None
                 elif curj is not None:
                     consulted[curj].append(nm)
         out, cur, lines = {}, None, []
@@ -666,7 +680,7 @@ def run(res, tier):
             ("Gen_Deps_search4.cfg", "q4", 2500 if thorough else 120, None),
             ("Gen_Deps_arginclude.cfg", "ai", 120 if thorough else 24, None)]
     if thorough:
-        plan.append(("Gen_Deps_sim.cfg", "sim", 1200, 1500))
+        plan.append(("Gen_Deps_sim.cfg", "sim", 1200, 400))
     cases = []
     gst = gtr = 0
     enumerated = 0
@@ -680,7 +694,8 @@ def run(res, tier):
             special = rnd.random() < (0.5 if thorough else 0.35)
             virtual = (tag != "ai") and rnd.random() < 0.12
             cases.append(make_case(dag, "%s-%04d" % (tag, i), base, special, rnd, virtual_root=virtual))
-    res.add(states=gst, transitions=gtr, dags_enumerated=enumerated, dags_materialised=len(cases))
+    res.add(states=gst, transitions=gtr, dags_enumerated=enumerated, dags_materialised=len(cases),
+            model_configs=len(plan))
 
     # ---- run: clang oracle, CLI, library driver -------------------------------------------
     with cf.ThreadPoolExecutor(12) as ex:
